@@ -19,24 +19,24 @@ import (
 )
 
 const (
-	KProduce         = 0
-	KFetch           = 1
-	KListOffsets     = 2
-	KMetadata        = 3
-	KOffsetCommit    = 8
-	KOffsetFetch     = 9
-	KFindCoordinator = 10
-	KJoinGroup       = 11
-	KHeartbeat       = 12
-	KLeaveGroup      = 13
-	KSyncGroup       = 14
-	KDescribeGroups  = 15
-	KListGroups      = 16
-	KSaslHandshake   = 17
-	KApiVersions     = 18
-	KCreateTopics    = 19
-	KDeleteTopics    = 20
-	KInitProducerID  = 22
+	KProduce          = 0
+	KFetch            = 1
+	KListOffsets      = 2
+	KMetadata         = 3
+	KOffsetCommit     = 8
+	KOffsetFetch      = 9
+	KFindCoordinator  = 10
+	KJoinGroup        = 11
+	KHeartbeat        = 12
+	KLeaveGroup       = 13
+	KSyncGroup        = 14
+	KDescribeGroups   = 15
+	KListGroups       = 16
+	KSaslHandshake    = 17
+	KApiVersions      = 18
+	KCreateTopics     = 19
+	KDeleteTopics     = 20
+	KInitProducerID   = 22
 	KSaslAuthenticate = 36
 )
 
@@ -127,8 +127,24 @@ type Event struct {
 	MetaSerial int64
 	AuthState  string
 	Extra      map[string]any
+	// ReqStart is the offset of the request frame in the client->server stream.
+	ReqStart int64
 	// Wall is the wall-clock arrival time (diagnostics only, never an oracle input).
 	Wall time.Time
+}
+
+// ClientWriteSeq returns the logical time at which the client wrote the
+// first byte of this request (from the wire tap), 0 if unknown.
+func (e *Event) ClientWriteSeq() int64 {
+	if e.Conn == nil {
+		return 0
+	}
+	for _, te := range e.Conn.Peer().Tap() {
+		if te.Write && te.Off <= e.ReqStart && e.ReqStart < te.Off+int64(te.N) {
+			return te.Seq
+		}
+	}
+	return 0
 }
 
 // Delivered reports whether the whole response reached a client Read.
@@ -374,6 +390,8 @@ type connState struct {
 	scram    scramServer
 	nconn    int
 	versions map[int]VR
+	consumed int64
+	reqStart int64
 }
 
 func readFrame(s *fakenet.Conn) ([]byte, error) {
@@ -434,6 +452,8 @@ func (c *Cluster) serve(b *Broker, s *fakenet.Conn) {
 			}
 			return
 		}
+		st.reqStart = st.consumed
+		st.consumed += int64(4 + len(payload))
 		if st.rawMode {
 			if !c.saslRaw(b, s, st, payload) {
 				return
@@ -448,7 +468,7 @@ func (c *Cluster) serve(b *Broker, s *fakenet.Conn) {
 
 func (c *Cluster) handle(b *Broker, s *fakenet.Conn, st *connState, payload []byte) bool {
 	hdr, err := refcodec.ParseRequestHeader(payload)
-	ev := &Event{Seq: core.Tick(), Broker: b.ID, ConnID: s.ID, Conn: s, API: hdr.Key, Version: hdr.Version, Corr: hdr.CorrelationID, AuthState: st.auth, Wall: time.Now()}
+	ev := &Event{Seq: core.Tick(), Broker: b.ID, ConnID: s.ID, Conn: s, API: hdr.Key, Version: hdr.Version, Corr: hdr.CorrelationID, AuthState: st.auth, Wall: time.Now(), ReqStart: st.reqStart}
 	if hdr.ClientID != nil {
 		ev.ClientID = *hdr.ClientID
 	}
